@@ -110,6 +110,44 @@ CHECKS = {
   note='trusted: the shim (harness/shim/sitecustomize.py, Python-level interposition: a kill is os._exit at a numbered '
        'point, buffered data is lost), fresh configure as the oracle, stub compilers, reference ninja',
   design='5/C10'),
+ 'C03': dict(
+  technique='TLA+ specification of abstract build scripts and the graph they describe (Script.tla); TLC-generated '
+            'scripts (Script_Gen.tla) become real projects built by real make / reference ninja with stub tools; '
+            'build/touch histories validated by TLC against the described graph (Graph_Trace.tla)',
+  text='The expected set of steps and of compiled objects for every build request is computed by TLC from the script '
+       'alone (downstream closure incl. libraries forwarded by static libraries, generated sources, generated headers '
+       'passed as includes, two-output steps, always_outdated steps, commands, aliases, default()/install()/test() '
+       'rules for the default and tests goals); the real build tool must run every out-of-date step and no up-to-date '
+       'one, from clean, on a no-op rebuild, and after touching each input file and each intermediate output, on both '
+       'backends.',
+  note='trusted: Script.tla as the meaning of a script (a static library may but need not be rebuilt when its libs= '
+       'change), stub compilers that rewrite their outputs, mtime observation of outputs, reference ninja, TLC',
+  design='5/C03'),
+ 'C06': dict(
+  technique='TLC-generated scripts (Script_Gen.tla) configured for both backends; per-step program/argv/cwd/env '
+            'recorded through stub tools, buildable targets and compile_commands.json extracted, identical '
+            'touch/rebuild histories run on both; TLC validates agreement modulo the allow-list written in '
+            'Backends_Trace.tla',
+  text='For every generated script under four configure-time configurations TLC checks: same buildable targets, same '
+       'program/arguments/cwd/environment for every step up to the explicit allow-list of documented backend-specific '
+       'additions, compile_commands.json entries equal to the executed compile commands, and the same set of steps '
+       'run for the same request after the same history (dependency relation).',
+  note='trusted: the allow-list in Backends_Trace.tla, stub tools, reference ninja as the Ninja semantics, make -qp '
+       'as the list of Make targets',
+  design='5/C06'),
+ 'C09': dict(
+  technique='TLA+ model of EnvVarDict (EnvVars.tla) model-checked with TLC and bound by replaying TLC-generated '
+            'operation sequences on the real class with trace validation; save/load round trips incl. down-converted '
+            'older formats and end-to-end configure/regenerate/env/run histories validated by TLC (Config_Trace.tla)',
+  text='TLC proves Apply(changes, initial) = current on all operation sequences up to the bound of the design model '
+       'and validates thousands of recorded operation sequences of the real class against dict semantics and that '
+       'invariant; every format version 7..17 is produced by inverting the upgrade steps and must load to an equal '
+       'configuration; real configure runs with toolchain files are followed by regenerate / regenerate --lazy / env '
+       '/ run under perturbed ambient environments, working directories and build-directory spellings, and must show '
+       'byte-identical outputs and the saved variables.',
+  note='trusted: the down-converter in harness/checks/c09.py (inverse of the documented upgrade steps), stub compiler, '
+       'TLC; mopack is not exercised',
+  design='5/C09'),
 }
 
 NOT_YET = {}
